@@ -61,6 +61,9 @@ def corpus():
                  'par_ts': 1, 'run': [6], 'bystander': True})
     base.append({'kind': 'shutdown', 'ends': 2, 'last_forced': True, 'kill': 'delete', 'kill_at': 2,
                  'par_ts': 3, 'run': [4]})
+    # a parallel step declared through `processes`; quantities crossing the pipe
+    base.append({'kind': 'shutdown', 'ends': 1, 'last_forced': True, 'kill': None, 'kill_at': 0,
+                 'par_ts': 1, 'run': [3], 'legacy_step': True, 'units': True})
     base.append({'kind': 'shutdown', 'ends': 0, 'last_forced': False, 'kill': 'divide', 'kill_at': 2,
                  'par_ts': 3, 'run': [4]})
     c = sched_prop.scheduler_corpus()[7]
@@ -87,7 +90,8 @@ def generate(rng, n, tier):
                         'kill': rng.choice([None, 'delete', 'delete', 'divide']),
                         'kill_at': rng.choice([1, 2, 3]), 'par_ts': rng.choice([1, 2, 3, 4, 5]),
                         'sleep': rng.choice([0.0, 0.0, 0.3]), 'killer_first': rng.random() < 0.5,
-                        'bystander': rng.random() < 0.4,
+                        'bystander': rng.random() < 0.4, 'legacy_step': rng.random() < 0.3,
+                        'units': rng.random() < 0.3,
                         'run': [rng.choice([2, 3, 4, 5]) for _ in range(rng.choice([1, 2]))]})
     return out
 
@@ -108,7 +112,7 @@ def _children_left():
 
 def _shutdown_run(case, obs):
     from vivarium.core.engine import Engine
-    from harness.probes import TickProcess, Killer
+    from harness.probes import TickProcess, Killer, TickStep, UnitTick
     eng = None
     try:
         par = TickProcess({'ts': case['par_ts'], '_parallel': True, 'sleep': case.get('sleep', 0.0)})
@@ -131,6 +135,16 @@ def _shutdown_run(case, obs):
             # an unrelated parallel process that is in flight while the structure changes
             processes['bystander'] = TickProcess({'ts': 5, '_parallel': True, 'var': 'b'})
             topology['bystander'] = {'vars': ('vars',)}
+        if case.get('legacy_step'):
+            # a parallel step declared through the `processes` dictionary (the legacy placement of derivers)
+            processes['legacy'] = TickStep({'_parallel': True, 'var': 'ls'})
+            topology['legacy'] = {'vars': ('vars',)}
+        if case.get('units'):
+            # a parallel and a serial process add quantities to one variable: the values cross the pipe
+            processes['ugrow'] = UnitTick({'_parallel': True})
+            processes['uleak'] = UnitTick({})
+            topology['ugrow'] = {'vars': ('vars',)}
+            topology['uleak'] = {'vars': ('vars',)}
         if killer is not None and not case.get('killer_first'):
             processes['killer'] = killer
             topology['killer'] = {'agents': ('agents',)}
@@ -144,16 +158,26 @@ def _shutdown_run(case, obs):
                 eng.update(iv)
         obs['gt'] = eng.global_time
         obs['agents'] = sorted((eng.state.get_value().get('agents') or {}).keys())
+        if case.get('units'):
+            m = eng.state.get_value()['vars']['mass']
+            obs['mass'] = [float(m.magnitude), str(m.units)]
         for _ in range(case['ends']):
             eng.end()
+        if case['ends']:
+            # Engine.end() itself must have stopped and reaped every worker (not only the garbage collector, later)
+            kids = [k for k in multiprocessing.active_children() if k.name != 'SyncManager']
+            for k in kids:
+                k.join(timeout=2.0)
+            obs['alive_after_end'] = max(0, len([k for k in multiprocessing.active_children()
+                                                 if k.name != 'SyncManager']) - obs.get('baseline', 0))
     except Exception as e:  # noqa
         obs['raised'] = f'{type(e).__name__}: {str(e)[:160]}'
     # every reference to the engine dies with this frame
 
 
 def _shutdown(case):
-    obs = {}
     before = len(multiprocessing.active_children())
+    obs = {'baseline': before}
     _shutdown_run(case, obs)
     obs['children_left'] = max(0, _children_left() - before)
     return obs
@@ -218,6 +242,13 @@ def oracle(case, impl):
             fails.append(f'shutdown-error: {o["raised"]} ({case})')
         if o.get('children_left'):
             fails.append(f'worker-left: {o["children_left"]} worker OS process(es) still alive after shutdown')
+        elif o.get('alive_after_end'):
+            fails.append(f'worker-left: {o["alive_after_end"]} worker OS process(es) still alive when Engine.end() '
+                         f'returned')
+        if case.get('units') and not o.get('raised') and case['last_forced'] \
+                and o.get('mass') != [2.0 * o['gt'], 'femtogram']:
+            fails.append(f'transparent: a parallel and a serial process each add 1 fg per time unit; after '
+                         f'{o["gt"]} the variable holds {o.get("mass")}')
         if case['kill'] == 'delete' and not o.get('raised') and 'cell' in o.get('agents', []) \
                 and sum(case['run']) >= case['kill_at']:
             fails.append('delete: the compartment is still there')
